@@ -917,7 +917,25 @@ class ExprMixin:
             return
         if name.startswith("__") and name.endswith("__"):
             raise Unsupported(f"special attribute {ci.name}.{name}")
+        if self.class_assigns_attr(ci, name):
+            # some method of the class assigns self.<name>: the instance may well have it, the declared input shape of
+            # the contract just does not list it - that is a gap of the contract, never an AttributeError of the code
+            raise Unsupported(f"attribute {ci.name}.{name} is assigned by the class but missing from the contract's input shape")
         yield st, RaiseV(self.exc("AttributeError", f"{ci.name}.{name}"))
+
+    def class_assigns_attr(self, ci, name):
+        cache = self.__dict__.setdefault("_assigns_cache", {})
+        key = (ci.qual, name)
+        if key not in cache:
+            found = False
+            for k in self.repo.mro(ci):
+                for fn in k.methods.values():
+                    for n in ast.walk(fn):
+                        if isinstance(n, ast.Attribute) and n.attr == name and isinstance(n.ctx, ast.Store) \
+                                and isinstance(n.value, ast.Name) and n.value.id == "self":
+                            found = True
+            cache[key] = found
+        return cache[key]
 
     def check_guard(self, st, ref, ob, name, how):
         """lock-ownership obligation hook (C15/C16); overridden by the lock discipline checker"""
